@@ -2,5 +2,6 @@ SPECIFICATION Spec
 CONSTANTS
   Defect = "crosswire"
   MaxChanges = 1
+  FocusKeys = {}
 PROPERTY NoCrossTalk
 CHECK_DEADLOCK FALSE
